@@ -122,6 +122,7 @@ func NewMetricRegistryWithClient(
 func (r *MetricRegistry) Start() {
 	r.mu.Lock()
 	if !r.started {
+		r.started = true
 		r.wg.Add(1)
 		go func() {
 			defer r.wg.Done()
@@ -158,10 +159,11 @@ func (r *MetricRegistry) Stop() {
 		r.mu.Unlock()
 		return
 	}
+	r.started = false
+	// release the lock before waiting: the poller takes it on every tick
+	r.mu.Unlock()
 	r.stopper <- true
 	r.wg.Wait()
-	r.started = false
-	r.mu.Unlock()
 }
 
 // RegisterDistribution will register a distribution sample to this registry
